@@ -16,6 +16,12 @@ pub enum ReverseProxyPeerIpHeaderFormat {
     LastAddress,
 }
 
+/// Largest allowed value of `protocol.max_peers`
+///
+/// An announce response with this many IPv6 peers (18 bytes each) fits in the
+/// response buffer of a connection together with the HTTP header
+pub const MAX_PEERS_LIMIT: usize = 400;
+
 /// aquatic_http configuration
 #[derive(Clone, Debug, PartialEq, TomlConfig, Deserialize)]
 #[serde(default, deny_unknown_fields)]
